@@ -165,7 +165,7 @@ check("C09",
       "Coq invariant proof over an executable model + translated counting functions + trace validation (vm_compute) on real Brokers", "DESIGN.md 5/C09")
 
 check("C10",
-      "[Round 3: wrapping is unconditional in the failure's class (foolscap's own exception classes, 3-party relay); every inbound delivery is handled whatever the readiness of earlier ones (refused / unresolvable gifts: C10_deliveries_all_handled); fixed corpus witness per seed family.] Theorems (Coq, 15; receiver-side rejections stay inside their top-level object (reportViolation shape fact); f.type rebuilt from the "
+      "[Round 4: fields fit whichever travel as VOCAB tokens (taster read from source); failing a request fires once under every logging option (fallback names read from source); Tub logging options and the negotiated vocabulary as batch dimensions.] [Round 3: wrapping is unconditional in the failure's class (foolscap's own exception classes, 3-party relay); every inbound delivery is handled whatever the readiness of earlier ones (refused / unresolvable gifts: C10_deliveries_all_handled); fixed corpus witness per seed family.] Theorems (Coq, 15; receiver-side rejections stay inside their top-level object (reportViolation shape fact); f.type rebuilt from the "
       "transmitted name alone; multi-fault calls and homonymous exception classes in the catalogue). No hypothesis on the exception: FailureSlicer.getStateToCopy is total and every field it sends fits the byte limits "
       "FailureConstraint enforces (type 200, value 1000, traceback 2000, each parent 200) for any class name, any message incl. text UTF-8 cannot "
       "encode, a raising __str__, any traceback, both unsafeTracebacks settings; each field is the escaped text or a whole-character prefix + '..' "
